@@ -333,10 +333,12 @@ type agg struct {
 	wallUS      int64
 	digests     map[int]string
 	pairs       map[string]struct{}
+	forcedTried map[string]struct{}
+	forcedGot   map[string]struct{}
 }
 
 func newAgg() *agg {
-	return &agg{nontrivial: map[string]struct{}{}, scheds: map[string]struct{}{}, shapes: map[string]struct{}{}, faults: map[string]int{}, probes: map[string]int{}, found: map[string]*found{}, digests: map[int]string{}, pairs: map[string]struct{}{}}
+	return &agg{nontrivial: map[string]struct{}{}, scheds: map[string]struct{}{}, shapes: map[string]struct{}{}, faults: map[string]int{}, probes: map[string]int{}, found: map[string]*found{}, digests: map[int]string{}, pairs: map[string]struct{}{}, forcedTried: map[string]struct{}{}, forcedGot: map[string]struct{}{}}
 }
 
 func (a *agg) addFound(f *found) {
@@ -375,7 +377,14 @@ func (a *agg) add(r *rec, tier string, keepDigests bool) {
 		a.probes[k] += v
 	}
 	for _, p := range res.Pairs {
-		a.pairs[p] = struct{}{}
+		switch {
+		case strings.HasPrefix(p, "!"): // a forced order that was achieved by holding
+			a.forcedGot[p[1:]] = struct{}{}
+		case strings.HasPrefix(p, "?"): // a forced order that was attempted
+			a.forcedTried[p[1:]] = struct{}{}
+		default:
+			a.pairs[p] = struct{}{}
+		}
 	}
 	if keepDigests {
 		a.digests[r.Run<<16|r.Sub] = res.TraceDigest
@@ -1100,6 +1109,47 @@ func writeEvidence(id, tier string, seed uint64, m *meta, a *agg, wall float64, 
 		}
 		cov["ordered_hook_pairs_observed"] = len(a.pairs)
 		cov["hook_pairs_seen_in_both_orders"] = both / 2
+		pts := map[string]struct{}{}
+		var oneOrder []string
+		for p := range a.pairs {
+			if i := strings.Index(p, "<"); i > 0 {
+				pts[p[:i]], pts[p[i+1:]] = struct{}{}, struct{}{}
+				if _, ok := a.pairs[p[i+1:]+"<"+p[:i]]; !ok {
+					oneOrder = append(oneOrder, p)
+				}
+			}
+		}
+		var pl []string
+		for p := range pts {
+			pl = append(pl, p)
+		}
+		sort.Strings(pl)
+		sort.Strings(oneOrder)
+		if len(a.forcedTried) > 0 {
+			cov["forced_orders_rule"] = "legs F/NF: every order of two hook points that a fixed discovery batch of plain runs never showed is attempted by replaying a discovery scenario in which both goroutines exist and keeping the second point's goroutine parked until the first was reached (or a waiting bound expired: infeasible in that run)"
+			cov["forced_orders_attempted_distinct"] = len(a.forcedTried)
+			cov["forced_orders_achieved_distinct"] = len(a.forcedGot)
+			var never []string
+			for p := range a.forcedTried {
+				if _, ok := a.forcedGot[p]; !ok {
+					if _, ok := a.pairs[p]; !ok {
+						never = append(never, p)
+					}
+				}
+			}
+			sort.Strings(never)
+			cov["forced_orders_never_seen"] = len(never)
+			if len(never) > 40 {
+				never = never[:40]
+			}
+			cov["forced_orders_never_seen_sample"] = never
+		}
+		cov["hook_points_in_window"] = pl
+		cov["hook_pairs_seen_in_one_order_only"] = len(oneOrder)
+		if len(oneOrder) > 60 {
+			oneOrder = oneOrder[:60]
+		}
+		cov["hook_pairs_one_order_only_sample"] = oneOrder
 		cov["ordered_hook_pairs_rule"] = "inside the shutdown window (from the first release at chan.close.begin / nc.close.done): 'a<b' = hook point a of one goroutine role was first reached before hook point b of another role; union over all runs"
 	}
 	ev := map[string]interface{}{
